@@ -58,7 +58,7 @@ func lockSum(repo string) string {
 	if arg == nil {
 		xt.Fail("LockVoterPower: no SetLockedPower call")
 	}
-	norm := func(n ast.Node) string { return strings.Join(strings.Fields(k.Src(n)), "") }
+	norm := func(n ast.Node) string { return k.Norm(n) }
 	body := norm(fd.Body)
 	a := norm(arg)
 	switch {
